@@ -10,6 +10,7 @@ open OdlModel OdlModel.OpAlgebra
 `expr leaves=<leaf|leaf|…> e=<rpn token|token|…> x=<entries>`
 answers `ok tree=… dom=… ran=… lin=0|1 fn=0|1 ty=… linof=0|1 tt=0|1 val=… inp=… den=…` or
 `raise ty=… tt=0|1` (`tt`: the dispatch through the extracted tables gives the same object).
+`leafclass leaf=<kind~…> x= y= s= t=` answers `ok cls=all|real|none lin= fn= dom= ran= fx= fy= fsx= ftx= fxy=`.
 
 leaf   : `<lin><fn>~` + one of `shift~n~p` `repart~n` `impart~n` `scalef~c` `powf~p` (field -> field) `mat~ndom~nran~rows` `scale~n~c` `ident~n` `pow~n~p` `inner~n~y` `l2sq~n` `constf~n~c`
          `zerof~n` `linf~n~y` (leaf id = position)
@@ -36,82 +37,43 @@ def showSp : Sp → String
   | .vec n => s!"v{n}"
   | .fld => "F"
 
-def sumTo (n : Nat) (f : Nat → CRat) : CRat := (List.range n).foldl (fun acc k => acc + f k) 0
-
-def cpow (z : CRat) (p : Nat) : CRat := (List.replicate p z).foldl (· * ·) 1
-
-/-- executable leaf: its dispatch-visible info (id filled in later) and its map -/
-def parseLeafKind (id : Nat) (parts : List String) : Option (Leaf × (V → V)) :=
+/-- wire leaf kind -> model leaf spec (`Model/OpLeaves.lean`); every executable leaf of the
+pool is a `LeafSpecC`, nothing is defined in the driver -/
+def parseSpec (parts : List String) : Option (LeafSpecC CRat) :=
   match parts with
   | ["mat", nd, nr, rows] => do
       let nd ← nd.toNat?
       let nr ← nr.toNat?
       let m ← (rows.splitOn ";").mapM parseCList
       if m.length ≠ nr || m.any (·.length ≠ nd) then none
-      let sp : LeafSpec CRat := .mat nd nr m
-      some (sp.info id, sp.map)
-  | ["scale", n, c] => do
-      let n ← n.toNat?
-      let c ← CRat.parse c
-      let sp : LeafSpec CRat := .scale n c
-      some (sp.info id, sp.map)
-  | ["ident", n] => do
-      let n ← n.toNat?
-      let sp : LeafSpec CRat := .ident n
-      some (sp.info id, sp.map)
-  | ["pow", n, p] => do
-      let n ← n.toNat?
-      let p ← p.toNat?
-      let sp : LeafSpec CRat := .pow n p
-      some (sp.info id, sp.map)
-  | ["scalef", c] => do
-      let c ← CRat.parse c
-      some (⟨id, .fld, .fld, true, false⟩, fun x => let v := c * x 0; fun _ => v)
-  | ["powf", p] => do
-      let p ← p.toNat?
-      some (⟨id, .fld, .fld, false, false⟩, fun x => let v := cpow (x 0) p; fun _ => v)
-  | ["shift", n, p] => do   -- harness operator out[j] = x[(j+1) mod n] ^ p (not alias-safe)
-      let n ← n.toNat?
-      let p ← p.toNat?
-      let sp : LeafSpec CRat := .shift n p
-      some (sp.info id, sp.map)
-  | ["repart", n] => do   -- ComplexEmbedding ∘ RealPart on cn(n): real-linear only
-      let n ← n.toNat?
-      some (⟨id, .vec n, .vec n, true, false⟩, fun x j => if j < n then ⟨(x j).re, 0⟩ else 0)
-  | ["impart", n] => do   -- ComplexEmbedding ∘ ImagPart on cn(n)
-      let n ← n.toNat?
-      some (⟨id, .vec n, .vec n, true, false⟩, fun x j => if j < n then ⟨(x j).im, 0⟩ else 0)
+      some (.base (.mat nd nr m))
+  | ["scale", n, c] => do some (.base (.scale (← n.toNat?) (← CRat.parse c)))
+  | ["ident", n] => do some (.base (.ident (← n.toNat?)))
+  | ["pow", n, p] => do some (.base (.pow (← n.toNat?) (← p.toNat?)))
+  | ["shift", n, p] => do some (.base (.shift (← n.toNat?) (← p.toNat?)))   -- harness operator
+  | ["constf", n, c] => do some (.base (.constf (← n.toNat?) (← CRat.parse c)))
+  | ["zerof", n] => do some (.base (.zerof (← n.toNat?)))
+  | ["scalef", c] => do some (.scalef (← CRat.parse c))
+  | ["powf", p] => do some (.powf (← p.toNat?))
+  | ["repart", n] => do some (.repart (← n.toNat?))   -- ComplexEmbedding ∘ RealPart on cn(n)
+  | ["impart", n] => do some (.impart (← n.toNat?))   -- ComplexEmbedding ∘ ImagPart on cn(n)
   | ["inner", n, y] => do
       let n ← n.toNat?
       let y ← parseCList y
       if y.length ≠ n then none
-      let ya := y.toArray
-      some (⟨id, .vec n, .fld, true, false⟩, fun x =>
-        let v := sumTo n (fun k => x k * (ya.getD k 0).conj)
-        fun _ => v)
+      some (.inner n y false)
   | ["linf", n, y] => do
       let n ← n.toNat?
       let y ← parseCList y
       if y.length ≠ n then none
-      let ya := y.toArray
-      some (⟨id, .vec n, .fld, true, true⟩, fun x =>
-        let v := sumTo n (fun k => x k * (ya.getD k 0).conj)
-        fun _ => v)
-  | ["l2sq", n] => do
-      let n ← n.toNat?
-      some (⟨id, .vec n, .fld, false, true⟩, fun x =>
-        let v := sumTo n (fun k => x k * (x k).conj)
-        fun _ => v)
-  | ["constf", n, c] => do
-      let n ← n.toNat?
-      let c ← CRat.parse c
-      let sp : LeafSpec CRat := .constf n c
-      some (sp.info id, sp.map)
-  | ["zerof", n] => do
-      let n ← n.toNat?
-      let sp : LeafSpec CRat := .zerof n
-      some (sp.info id, sp.map)
+      some (.inner n y true)
+  | ["l2sq", n] => do some (.l2sq (← n.toNat?))
   | _ => none
+
+/-- executable leaf: its dispatch-visible info and its map, both from the model spec -/
+def parseLeafKind (id : Nat) (parts : List String) : Option (Leaf × (V → V)) := do
+  let sp ← parseSpec parts
+  some (sp.info id, sp.map cratStruct)
 
 /-- `<lin><fn>~kind~…`: the two flags are read from the live object by the harness
 (`op.is_linear`, `isinstance(op, Functional)`); the kind only selects the executable map and
@@ -234,9 +196,33 @@ def doExpr (l : Line) : Option String := do
     let d := toList n (den env e xv)
     some s!"ok tree={showImpl i} dom={showSp i.dom} ran={showSp i.ran} lin={b01 i.lin} fn={b01 i.isFn} ty={showTy ty} linof={b01 (linOf e)} nf={b01 i.merged} tt={b01 (viaT == some (showImpl i) && i.linBy Gen.AlgebraDispatch.flagOf == i.lin && toList n (runBy Gen.AlgebraDispatch.callOf env i xv) == val)} val={showCList val} inp={showCList inp} den={showCList d}"
 
+def showCls : LinClass → String
+  | .all => "all" | .realOnly => "real" | .none => "none"
+
+def scaleV (s : CRat) (x : V) : V := fun j => s * x j
+
+/-- `leafclass leaf=<kind~…> x=<entries> y=<entries> s=<scalar> t=<real scalar>`: the leaf spec
+ALONE (no flags from the wire): the flags the model gives it (`LeafSpecC.info`), its linearity
+class (`LeafSpecC.cls`), and its map (`LeafSpecC.map cratStruct`) at `x`, `s*x`, `t*x`, `x+y`, `y`. -/
+def doLeafClass (l : Line) : Option String := do
+  let sp ← (l.get? "leaf").bind (fun s => parseSpec (s.splitOn "~"))
+  let x ← l.crats? "x"
+  let y ← l.crats? "y"
+  let s ← l.crat? "s"
+  let t ← l.crat? "t"
+  let info := sp.info 0
+  if x.length ≠ spDim info.dom || y.length ≠ spDim info.dom then none
+  let f := sp.map cratStruct
+  let n := spDim info.ran
+  let xv := ofList x
+  let yv := ofList y
+  let out (v : V) : String := showCList (toList n (f v))
+  some s!"ok cls={showCls sp.cls} lin={b01 info.lin} fn={b01 info.fn} dom={showSp info.dom} ran={showSp info.ran} fx={out xv} fy={out yv} fsx={out (scaleV s xv)} ftx={out (scaleV t xv)} fxy={out (fun j => xv j + yv j)}"
+
 def handle (l : Line) : Option String :=
   match l.op with
   | "expr" => doExpr l
+  | "leafclass" => doLeafClass l
   | _ => none
 
 def main : IO Unit := driverLoop handle
